@@ -353,6 +353,8 @@ def run(P, R, L):
     K.own12_release_unlinks_that_version(P, R, L)
     R.clause("GRD-24", "a declined manifest re-use leaves manifest_file_number alone (it names the manifest that is kept and that CURRENT points at)")
     K.grd24_reuse_adopts_number_with_file(P, R, L)
+    R.clause("GRD-26", "recover reports the manifest as adopted only when maybe_reuse_manifest adopted it (otherwise no new manifest is written and the old one is collected)")
+    K.grd26_reused_flag_truthful(P, R, L)
     R.clause("ORD-18", "the garbage collection that ends a table compaction runs after the compaction released its input version")
     K.ord18_gc_after_release(P, R, L)
     R.not_decided += ["directory contents for a concrete history", "crash-orphan collection beyond the guards"]
